@@ -392,7 +392,9 @@ def apalache(spec, args, timeout=900):
     d = os.path.join(SPEC, "apalache")
     out = os.path.join(rundir(), "apalache-out")
     try:
-        rc, o, e = sh(["apalache-mc", "check", "--out-dir=" + out] + args + [spec], cwd=d, timeout=timeout)
+        os.makedirs(out, exist_ok=True)
+        rc, o, e = sh(["apalache-mc", "check", "--out-dir=" + out] + args + [spec], cwd=d, timeout=timeout,
+                      env={"JVM_ARGS": "-Djava.io.tmpdir=" + out})
     except ToolError:
         return "unknown"
     m = re.search(r"The outcome is: (\w+)", o + e)
